@@ -48,7 +48,7 @@ RULE = ("Generated histories (4-14 ops) of prep (= real LocalBuilder._preparePac
         "--shared` calls it and sync barriers (single ops and short templates: need, race for one build-id, churn, "
         "usage history + gc, workspace switching to another package + forced gc), by 2-4 projects on one LocalShare store (quota none/tight/loose in "
         "eighths of the total package size, autoClean on/off, store directory missing or existing-but-empty at "
-        "start, per-project --[no-]shared/--[no-]install); build-id = hash of the package content, so projects race "
+        "start, configured store path plain / itself a symlink / below a symlinked parent, per-project --[no-]shared/--[no-]install); build-id = hash of the package content, so projects race "
         "for the same build-id with identical content. Mode seq: ops in order, usage history from a logical clock "
         "(os.utime of pkg.json). Modes thr/fork: one worker per project, interleaved at flock / rename / symlink / "
         "unlink / rmtree / open granularity (plus a point after every unlock) by a generated schedule of "
@@ -74,7 +74,7 @@ ASSUMPTIONS = ["the window between useSharedPackage/installSharedPackage returni
                "used/unused status of a package whose link appeared or vanished while a gc held its lock is taken as "
                "whatever the gc decided (gc-judgement-relaxed-link-changed-during-gc)",
                "L1 scratch on tmpfs (/dev/shm): same flock/rename/link semantics, no journal contention"]
-TIME_BUDGET = {"quick": 190, "thorough": 1500}
+TIME_BUDGET = {"quick": 176, "thorough": 1500}
 BATCH = 40
 
 CLOCK_BASE = 1_500_000_000
@@ -397,9 +397,25 @@ class World:
         from bob.utils import hashDirectory
         cfg = case["cfg"]
         self.base = base
-        self.store = os.path.join(base, "store")
         self.start = cfg.get("start", "empty")
-        if self.start == "empty":
+        # the configured store path may contain a symbolic link component (/tmp -> /private/tmp, a "current" link to a
+        # disk): 1 = the store directory itself is a link to the real directory, 2 = its parent is a link.  Bob and the
+        # harness only ever use the configured path.
+        via = cfg.get("store_via", 0)
+        if via == 1 and self.start == "missing":
+            via = 2                      # a dangling link as store path would be a configuration error
+        self.store_via = via
+        if via == 1:
+            os.makedirs(os.path.join(base, "disk", "store.real"))
+            os.symlink(os.path.join(base, "disk", "store.real"), os.path.join(base, "store"))
+            self.store = os.path.join(base, "store")
+        elif via == 2:
+            os.makedirs(os.path.join(base, "disk", "mnt"))
+            os.symlink(os.path.join(base, "disk", "mnt"), os.path.join(base, "mnt"))
+            self.store = os.path.join(base, "mnt", "store")
+        else:
+            self.store = os.path.join(base, "store")
+        if self.start == "empty" and via != 1:
             os.makedirs(self.store)
         # packages (deduplicated by content)
         self.pkgs = []
@@ -1686,6 +1702,7 @@ def run_case(ctx, case, mode=None, record=True):
         labels.add("quota:" + ("none" if cfg.get("quota") is None else "tight" if cfg["quota"] <= 3 else "mid" if cfg["quota"] <= 6 else "loose"))
         labels.add("autoClean:%s" % bool(cfg.get("autoClean", True)))
         labels.add("start:" + world.start)
+        labels.add("store-path:" + ["plain", "is-symlink", "parent-is-symlink"][world.store_via])
         labels.add("projects:%d" % world.nproj)
         if sched is not None:
             labels.add("switches:%s" % ("0-1" if sched.switches <= 1 else "2-5" if sched.switches <= 5 else "6-15" if sched.switches <= 15 else ">15"))
@@ -1797,6 +1814,11 @@ def run_e2e(ctx, case, guard=False):
     base = ctx.tmpdir()            # real processes: the ordinary scratch disk
     try:
         store = os.path.join(base, "store")
+        if case.get("store_via"):
+            os.makedirs(os.path.join(base, "disk", "mnt"))
+            os.symlink(os.path.join(base, "disk", "mnt"), os.path.join(base, "mnt"))
+            store = os.path.join(base, "mnt", "store")
+            ctx.label("e2e-store-path:parent-is-symlink")
         rv = os.path.join(base, "rv")
         os.makedirs(rv)
         os.mkfifo(os.path.join(rv, "fifo"))
@@ -1889,7 +1911,7 @@ def run_e2e(ctx, case, guard=False):
 
 e2e_st = st.fixed_dictionaries({
     "mode": st.just("e2e"), "npkg": st.integers(1, 2), "quota": st.sampled_from([None, None, 1, 100000]),
-    "start": st.sampled_from(["missing", "empty"]), "drop": st.integers(0, 2),
+    "start": st.sampled_from(["missing", "empty"]), "drop": st.integers(0, 2), "store_via": st.sampled_from([0, 0, 1]),
     "clean": st.sampled_from([["--all-unused"], ["--all-unused"], [], ["--all-unused", "--dry-run"], ["--used"], ["--used", "--all-unused"]]),
     "rebuild": st.booleans(), "history": st.just([]), "cfg": st.just({}),
 })
@@ -1965,6 +1987,7 @@ def case_st(mode, quick):
             "quota_form": st.integers(0, 1),
             "autoClean": st.sampled_from([True, False]),
             "start": st.sampled_from(["empty", "empty", "missing"]),
+            "store_via": st.sampled_from([0, 0, 0, 0, 1, 2]),
             "modes": st.lists(st.sampled_from([[True, True]] * 5 + [[True, False], [False, True], [False, True]]), min_size=0, max_size=4),
         }),
         "pkgs": st.lists(tree_st, min_size=1, max_size=4),
